@@ -113,3 +113,25 @@ def run(tier, seed):
         checker_cmd="cd lean && lake build FGVerif.Proofs.C20 && lake env lean FGVerif/Audit/C20.lean",
         explanation="theorems in lean/FGVerif/Proofs/C20.lean about Model/C20.lean; model tied to fgutils.utils.complete_aam/initialize_aam by differential testing; "
                     "executable spec C20.specCheck applied to every implementation output")
+
+
+def replay(path):
+    """./check C20 --replay <file>: run the current implementation on the recorded input again"""
+    import json
+    from common import generic_replay
+
+    def opt(x):
+        return None if x == "_" else int(x)
+
+    def reimpl(req):
+        op = req[1]
+        if op == "complete":
+            offset = "min" if req[2] == "min" else opt(req[2])
+            aams = [opt(a) for a in req[3]]
+            return call_impl(impl_complete, list(range(len(aams))), aams, offset, False)
+        off = int(req[2])
+        ids = [int(p[0]) for p in req[3]]
+        aams = [opt(p[1]) for p in req[3]]
+        return call_impl(impl_initialize, ids, aams, off)
+
+    return generic_replay("C20", path, reimpl)
